@@ -418,15 +418,16 @@ def main():
     # with a private driver (LBZDRV set, development) do not insist on building
     # the shared lbzdrv, which contains every work package's commands
     if os.environ.get('LBZDRV'):
-        ck.lean(['LbzVerif.Props.C04'], extra_targets=())
+        ck.lean(ck.props_modules(), extra_targets=())
     else:
-        ck.lean(['LbzVerif.Props.C04'])
+        ck.lean(ck.props_modules())
     ck.require_theorems(['LbzVerif.Props.C04.' + n for n in (
         'unrle_rle', 'rle1_run', 'rle1_maxrun', 'rleLen_snoc',
         'rleLen_take_mono', 'pack_maximal', 'pack_largest', 'pack_pos',
         'blocksOf_unfold', 'blocksOf_flatten', 'collect_split',
         'collect_preserves_inv', 'init_wellformed', 'collectMany_flatten',
-        'collect_pack', 'collect_pack_single')])
+        'collect_pack', 'collect_pack_single', 'Blocks.realCodec_ok',
+        'Blocks.blocks_nonseq', 'Blocks.blocks_seq')])
     # the final flush of encode(): cut the statements out of the source so the
     # harness executes the text of the tree being checked
     flags = []
